@@ -52,7 +52,10 @@ RULE = ("random datasets (0-3 named graphs incl. blank-node-named, empty and reg
         "Graph view; 18-30 read-only calls per case drawn from all serializer formats x option sets, ~50 SPARQL "
         "templates, property paths, compare functions, membership/iteration/slicing/graph-listing calls; snapshot of "
         "quads + graph names after every call; 30 % of the cases are R, R', R schedules of RELATED reads, and these plus "
-        "a sample of the others are also compared read by read with a pristine forked process.  non-trivial = the dataset has >= 1 quad and >= 10 reads completed "
+        "a sample of the others are also compared read by read with a pristine forked process; after every read the model is "
+        "compared on three axes: quads + graph names, the vocabulary namespaces that have a prefix, and (reads whose answer the "
+        "model computes: len/iter/pattern/membership/cbd/graph listing/quad reads/nt/nquads/aggregate reads/6 exact SPARQL shapes "
+        "with FROM / FROM NAMED) the answer itself.  non-trivial = the dataset has >= 1 quad and >= 10 reads completed "
         "without raising; distinct = distinct (cfg, quads, empty, reads)")
 ASSUMPTIONS = ["Memory store only (the property's quantifier does not name other stores)",
                "contexts passed to read calls are identifiers or views on the dataset's own store; handing a FOREIGN "
@@ -76,9 +79,23 @@ TERM = {
     30: URIRef("http://one/s"), 31: URIRef("http://one/p"),     # namespaces for `_x` / `p_x` prefix pairs
     32: URIRef("http://two/s"), 33: URIRef("http://three/p"),
     34: URIRef("http://dot/ns#s"), 35: URIRef("http://dot/ns#p."),   # a predicate whose local name ends in "."
+    36: URIRef(EX + "zz"), 37: URIRef("http://other/ns#x"),           # IRIs handed to qname / compute_qname only
     20: Literal(""), 21: Literal(0), 22: Literal(False), 23: Literal("x", lang="en"), 24: Literal("1"),
     25: Literal("2024-02-03", datatype=XSD.date), 26: RDF.nil, 27: Literal("a\"b\nc"), 28: URIRef(EX + "C"),
 }
+# namespaces (ids owned by the harness; the Lean driver gets the term -> namespace table as `nsof` lines).  The
+# namespace of an IRI is everything up to its last '#', else its last '/' — written down here, not taken from rdflib.
+NS = {1: EX, 2: "http://www.w3.org/1999/02/22-rdf-syntax-ns#", 3: "http://o/ns#", 4: "http://t/ns#", 5: "http://one/",
+      6: "http://two/", 7: "http://three/", 8: "http://dot/ns#", 9: "http://other/ns#"}
+NS_REV = {v: k for k, v in NS.items()}
+
+
+def _ns_of_iri(iri):
+    cut = iri.rfind("#") if "#" in iri else iri.rfind("/")
+    return iri[:cut + 1]
+
+
+TERM_NS = {tid: NS_REV[_ns_of_iri(str(t))] for tid, t in sorted(TERM.items()) if isinstance(t, URIRef)}
 SUBJ = [1, 2, 3, 4, 5, 6]
 PRED = [10, 11, 12, 15]
 OBJ = [1, 2, 3, 4, 5, 6, 20, 21, 22, 23, 24, 25, 27, 28, 29]
@@ -171,6 +188,12 @@ QT = [
     "DESCRIBE ?s WHERE { ?s {P} ?o }",
     "DESCRIBE ?s FROM {G} WHERE { ?s ?p ?o }",
     "DESCRIBE ?o {S2} WHERE { GRAPH ?g { {S} ?p ?o } }",
+    "SELECT ?s ?p ?o WHERE { ?s ?p ?o }",                              # exact shapes: answers compared with the model
+    "SELECT ?g ?s ?p ?o WHERE { GRAPH ?g { ?s ?p ?o } }",
+    "SELECT ?s ?p ?o WHERE { GRAPH {G} { ?s ?p ?o } }",
+    "ASK { ?s ?p ?o }",
+    "CONSTRUCT { ?s ?p ?o } WHERE { ?s ?p ?o }",
+    "DESCRIBE ?s WHERE { ?s ?p ?o }",
     "SELECT ?s (BNODE() AS ?b) WHERE { ?s {P} ?o }",                   # fresh blank nodes: exempt from determinism
     "SELECT ?s (RAND() AS ?r) (NOW() AS ?t) (UUID() AS ?u) WHERE { ?s ?p ?o } LIMIT 1",
 ]
@@ -196,6 +219,9 @@ FROM_BODIES = [
     "ASK {C} { GRAPH ?g { ?s {P} ?o } }",
     "CONSTRUCT { ?s ?p ?o } {C} WHERE { ?s ?p ?o }",
     "DESCRIBE ?s {C} WHERE { ?s ?p ?o }",
+    "SELECT ?g ?s ?p ?o {C} WHERE { GRAPH ?g { ?s ?p ?o } }",
+    "SELECT ?s ?p ?o {C} WHERE { GRAPH {G} { ?s ?p ?o } }",
+    "SELECT ?s ?p ?o {C} WHERE { ?s ?p ?o }",
 ]
 
 
@@ -271,7 +297,7 @@ def gen_dataset(rng, cfg):
         q = [rng.choice(SUBJ), rng.choice(PRED), rng.choice(OBJ if rng.random() < 0.8 else [20, 21, 22]), g]
         if q[1] == 12:
             q[2] = rng.choice([28, 28, 29]) if rng.random() < 0.7 else q[2]
-        if rng.random() < 0.15 and quads:                   # same triple in a second graph
+        if rng.random() < 0.25 and quads:                   # same triple in a second graph
             q = quads[rng.randrange(len(quads))][:3] + [g]
         if q not in quads:
             quads.append(q)
@@ -360,8 +386,13 @@ def gen_read(rng, cfg, quads, kind=None):
         return ["nav", f, q[0], q[1], q[2], head]
     # context-aware reads (Dataset / ConjunctiveGraph only)
     f = rng.choice(["graphs", "contexts", "graphs_t", "quads", "contains4", "triples_ctx", "triples4", "get_context",
-                    "get_graph", "default", "len_ctx", "iter_ds", "triples_choices_ctx", "aggregate", "store_contexts"])
+                    "get_graph", "default", "len_ctx", "iter_ds", "triples_choices_ctx", "aggregate", "store_contexts",
+                    "agg_len", "agg_contains", "agg_triples", "agg_quads"])
     q = some()
+    # a triple held by several graphs: quads((s, p, o, g)) / aggregates / membership behave differently there
+    shared = [x for x in quads if sum(1 for y in quads if y[:3] == x[:3]) > 1]
+    if shared and rng.random() < (0.85 if f == "quads" else 0.5):
+        q = rng.choice(shared)
     pat = [q[0] if rng.random() < 0.6 else None, q[1] if rng.random() < 0.6 else None,
            q[2] if rng.random() < 0.6 else None]
     g = q[3] if rng.random() < 0.6 else gsel()
@@ -634,9 +665,29 @@ def snapshot(case, top):
     return sorted(quads), sorted(names)
 
 
-def _obs_line(snap):
+def _obs_line(snap, ns=()):
     qs, names = snap
-    return " ".join(sorted(",".join(q) for q in qs)) + " | " + " ".join(sorted(names))
+    return (" ".join(sorted(",".join(q) for q in qs)) + " | " + " ".join(sorted(names))
+            + " | " + " ".join(sorted(ns)))
+
+
+_DEFAULT_NS = None
+
+
+def ns_obs(top):
+    """the vocabulary's namespaces that have a prefix in the store's tables (ids of `NS`); a namespace outside the
+    vocabulary and outside rdflib's default bindings shows up as `?<iri>` (the model has no such id: a divergence)"""
+    global _DEFAULT_NS
+    if _DEFAULT_NS is None:
+        _DEFAULT_NS = {str(u) for _p, u in Graph().namespaces()}
+    out = set()
+    for _pfx, uri in top.namespaces():
+        u = str(uri)
+        if u in NS_REV:
+            out.add(str(NS_REV[u]))
+        elif u not in _DEFAULT_NS:
+            out.add("?" + u)
+    return out
 
 
 # ------------------------------------------------------------------ the read calls
@@ -694,6 +745,102 @@ class Text:
 
 
 _SIDE_VIOL = []
+
+# ---- skeleton outputs compared with the Lean model's `Out` (round g) ----------------------------------------------
+# do_read leaves, for the reads whose answer the model computes exactly, a canonical line here:
+#   "T s,p,o …" triples (bag) | "Q s,p,o,g …" quads (bag) | "QS …" quads (set) | "N g …" graph names | "b 0|1" | "n k"
+#   | "R a,b,c …" rows (bag) | "E" the read raised
+_OUT = [None]
+
+
+def _tid(t):
+    return str(TERM_REV[t]) if t in TERM_REV else "?" + _k(t)
+
+
+def _gtok_of(case, ident):
+    if ident is None:
+        return "d"
+    if isinstance(ident, Graph):
+        ident = ident.identifier
+    for g, tok in GTOK.items():
+        if _gid(case["cfg"], g) == ident:
+            return tok
+    return "?" + ident.n3()
+
+
+def _out(kind, toks, as_set=False):
+    toks = sorted(set(toks)) if as_set else sorted(toks)
+    _OUT[0] = (kind + " " + " ".join(toks)).strip()
+
+
+def _ttok(t):
+    return ",".join(_tid(x) for x in t[:3])
+
+
+def _qtok(case, q):
+    return _ttok(q) + "," + _gtok_of(case, q[3])
+
+
+def _gcode_map():
+    """graph identifier (n3 / document placeholder url) -> the number the driver prints for it inside rows"""
+    m = {}
+    for k, v in GN.items():
+        m[v.n3()] = (200 if isinstance(v, BNode) else 100) + k
+    for ph, tok in DOC_TOK.items():
+        m[_DOC_URLS.get(ph, ph)] = 100 + int(tok[1:])
+    return m
+
+
+def _line_tokens(case, lines, quads):
+    """N-Triples / N-Quads lines -> id tokens, by the text of the terms (no parser involved)"""
+    t2id = {}
+    for tid, t in TERM.items():
+        t2id[t.n3()] = str(tid)
+    t2id['"a\\"b\\nc"'] = "27"                      # the N-Triples spelling of Literal('a"b<LF>c')
+    g2tok = {_gid(case["cfg"], g).n3(): tok for g, tok in GTOK.items()}
+    out = []
+    for ln in lines:
+        body = ln.rstrip()
+        if not body.endswith(" ."):
+            out.append("?" + ln)
+            continue
+        body = body[:-2].rstrip()                    # the default graph has no label: "s p o  ."
+        s_, _, rest = body.partition(" ")
+        p_, _, rest = rest.partition(" ")
+        g_ = None
+        if quads:
+            o_, _, g_ = rest.rpartition(" ")
+            if not (g_.startswith("<") or g_.startswith("_:")) or not o_:
+                o_, g_ = rest, None
+        else:
+            o_ = rest
+        toks = [t2id.get(x, "?" + x) for x in (s_, p_, o_)]
+        if quads:
+            toks.append("d" if g_ is None else g2tok.get(g_, "?" + g_))
+        out.append(",".join(toks))
+    return out
+
+
+# the query shapes whose answer the model computes exactly (driver bodies spo / s / gspo)
+_C = r"((?:FROM (?:NAMED )?<[^>]*> ?)*)"
+_Q_SHAPES = [
+    (re.compile(r"^SELECT \?s \?p \?o " + _C + r"WHERE \{ \?s \?p \?o \}$"), "s", "spo"),
+    (re.compile(r"^SELECT \?g \?s \?p \?o " + _C + r"WHERE \{ GRAPH \?g \{ \?s \?p \?o \} \}$"), "s", "gspo"),
+    (re.compile(r"^SELECT \?s \?p \?o " + _C + r"WHERE \{ GRAPH <[^>]*> \{ \?s \?p \?o \} \}$"), "s", "gspo"),
+    (re.compile(r"^ASK " + _C + r"\{ \?s \?p \?o \}$"), "a", "spo"),
+    (re.compile(r"^CONSTRUCT \{ \?s \?p \?o \} " + _C + r"WHERE \{ \?s \?p \?o \}$"), "c", "spo"),
+    (re.compile(r"^DESCRIBE \?s " + _C + r"WHERE \{ \?s \?p \?o \}$"), "d", "s"),
+]
+
+
+def q_shape(rd):
+    """(kind, body) when the model computes this query's answer exactly, else None"""
+    if rd[2] & 8 or (len(rd) > 3 and (rd[3].get("ib") or rd[3].get("ns"))):
+        return None
+    for rx, kind, body in _Q_SHAPES:
+        if rx.match(rd[1]):
+            return kind, body
+    return None
 
 
 def _patch_target(case):
@@ -817,7 +964,12 @@ def do_read(case, top, target, rd):
         if isinstance(out, bytes):
             out = out.decode("utf-8")
         if fmt in LINE_FORMATS:
-            return sorted(l for l in out.splitlines() if l.strip())
+            lines = sorted(l for l in out.splitlines() if l.strip())
+            if fmt in ("nt", "nt11"):
+                _out("T", _line_tokens(case, lines, False))
+            elif fmt == "nquads":
+                _out("QS", _line_tokens(case, lines, True), as_set=True)
+            return lines
         return Text(fmt, out, fmt in QUAD_FORMATS and isinstance(target, ConjunctiveGraph))
     if api == "q":
         text, flags = rd[1], rd[2]
@@ -847,14 +999,31 @@ def do_read(case, top, target, rd):
             else:
                 qobj = text
             res = target.query(qobj, **kw)
+            shape = q_shape(rd)
             if res.type == "ASK":
+                if shape:
+                    _out("b", ["1" if res.askAnswer else "0"])
                 return ["ASK", bool(res.askAnswer)]
             if res.type in ("CONSTRUCT", "DESCRIBE"):
                 triples = set(res.graph)
+                if shape:
+                    _out("T", [_ttok(t) for t in triples])
                 if any(m in text for m in FRESH_MARKS):
                     return Fresh(triples)
                 return [res.type] + _bag(triples)
             rows = [tuple(r) for r in res]
+            if shape:
+                gm = _gcode_map()
+                const = re.search(r"GRAPH (<[^>]*>)", text)
+                toks = []
+                for r in rows:
+                    if shape[1] == "gspo" and const:
+                        toks.append(str(gm.get(const.group(1), "?" + const.group(1))) + "," + _ttok(r))
+                    elif shape[1] == "gspo":
+                        toks.append(str(gm.get(r[0].n3(), "?" + r[0].n3())) + "," + _ttok(r[1:]))
+                    else:
+                        toks.append(_ttok(r))
+                _out("R", toks)
             if any(m in text for m in FRESH_MARKS):
                 if "RAND()" in text:
                     return ["rows", len(rows)]
@@ -908,13 +1077,22 @@ def do_read(case, top, target, rd):
         _, f, s, p, o, uniq = rd
         pat = (_t(s), _t(p), _t(o))
         if f == "len":
+            _out("n", [str(len(target))])
             return [len(target)]
         if f == "iter":
-            return _bag(iter(target))
+            items = list(iter(target))
+            if isinstance(target, Dataset):
+                _out("Q", [_qtok(case, q) for q in items])       # Dataset.__iter__ yields quads
+            else:
+                _out("T", [_ttok(t) for t in items])
+            return _bag(items)
         if f == "contains3":
+            _out("b", ["1" if pat in target else "0"])
             return [pat in target]
         if f == "triples":
-            return _bag(target.triples(pat))
+            items = list(target.triples(pat))
+            _out("T", [_ttok(t) for t in items])
+            return _bag(items)
         if f == "slice":
             return _bag(target[pat[0]:pat[1]:pat[2]])
         if f == "getitem":
@@ -956,7 +1134,9 @@ def do_read(case, top, target, rd):
         if f == "items":
             return [_k(x) for x in target.items(TERM[head])]
         if f == "cbd":
-            return _bag(set(target.cbd(TERM[s])))
+            sub = set(target.cbd(TERM[s]))
+            _out("T", [_ttok(t) for t in sub])
+            return _bag(sub)
         if f == "collection":
             c = target.collection(TERM[head])
             lst = [_k(x) for x in c]
@@ -995,22 +1175,34 @@ def do_read(case, top, target, rd):
         _, f, s, p, o, g, how = rd
         pat = (_t(s), _t(p), _t(o))
         if f == "graphs":
-            return _bag(c.identifier for c in (top.graphs() if isinstance(top, Dataset) else top.contexts()))
+            ids = [c.identifier for c in (top.graphs() if isinstance(top, Dataset) else top.contexts())]
+            _out("N", [_gtok_of(case, i) for i in ids])
+            return _bag(ids)
         if f == "contexts":
-            return _bag(c.identifier for c in top.contexts())
+            ids = [c.identifier for c in top.contexts()]
+            _out("N", [_gtok_of(case, i) for i in ids])
+            return _bag(ids)
         if f == "graphs_t":
             full = (TERM[s or 1], TERM[p or 10], TERM[o or 20])
             return _bag(c.identifier for c in (top.graphs(full) if isinstance(top, Dataset) else top.contexts(full)))
         if f == "quads":
             c = _ctx_arg(case, top, g, how)
-            return _bag(top.quads(pat + (c,))) + _bag(top.quads(pat)) + _bag(top.quads())
+            first = list(top.quads(pat + (c,)))
+            _out("Q", [_qtok(case, q) for q in first])
+            return _bag(first) + _bag(top.quads(pat)) + _bag(top.quads())
         if f == "contains4":
-            return [(pat + (_ctx_arg(case, top, g, how),)) in top]
+            ans = (pat + (_ctx_arg(case, top, g, how),)) in top
+            _out("b", ["1" if ans else "0"])
+            return [ans]
         if f == "triples_ctx":
             c = _ctx_arg(case, top, g, "view" if how == "id" else how)
-            return _bag(top.triples(pat, context=c))
+            items = list(top.triples(pat, context=c))
+            _out("T", [_ttok(t) for t in items])
+            return _bag(items)
         if f == "triples4":
-            return _bag(top.triples(pat + (_ctx_arg(case, top, g, how),)))
+            items = list(top.triples(pat + (_ctx_arg(case, top, g, how),)))
+            _out("T", [_ttok(t) for t in items])
+            return _bag(items)
         if f == "get_context":
             c = top.get_context(_gid(cfg, g))
             return [len(c)] + _bag(c.triples(pat)) + [pat in c]
@@ -1031,6 +1223,23 @@ def do_read(case, top, target, rd):
             views = [top.get_context(_gid(cfg, x)) for x in (0, g, 3)]
             agg = ReadOnlyGraphAggregate(views)
             return [len(agg), pat in agg] + _bag(agg.triples(pat)) + _bag(agg.quads(pat))
+        if f in ("agg_len", "agg_contains", "agg_triples", "agg_quads"):
+            # ReadOnlyGraphAggregate over three views of this store (the default graph, g, _:gb; duplicates happen)
+            agg = ReadOnlyGraphAggregate([top.get_context(_gid(cfg, x)) for x in (0, g, 3)])
+            if f == "agg_len":
+                _out("n", [str(len(agg))])
+                return [len(agg)]
+            if f == "agg_contains":
+                ans = pat in agg
+                _out("b", ["1" if ans else "0"])
+                return [ans]
+            if f == "agg_triples":
+                items = list(agg.triples(pat))
+                _out("T", [_ttok(t) for t in items])
+                return _bag(items)
+            items = list(agg.quads(pat))
+            _out("Q", [_qtok(case, q) for q in items])
+            return _bag(items)
         if f == "store_contexts":
             full = (TERM[s or 1], TERM[p or 10], TERM[o or 20])
             return _bag(c.identifier for c in top.store.contexts(full))
@@ -1045,11 +1254,13 @@ def _exc_name(e):
 
 
 def _call(case, top, target, rd):
+    _OUT[0] = None
     try:
         return do_read(case, top, target, rd)
     except core.CaseTimeout:
         raise
     except Exception as e:  # a read that raises is still a read: the state must not change
+        _OUT[0] = "E"
         return ["EXC", _exc_name(e)]
 
 
@@ -1307,6 +1518,7 @@ def _run_impl(case, refs=None):
         stats[k] = stats.get(k, 0) + n
 
     ns_before = set(top.namespaces())
+    ns_ids = [ns_obs(top)]
 
     def check_state(k, rd, phase):
         nonlocal before, ns_before
@@ -1317,6 +1529,10 @@ def _run_impl(case, refs=None):
             if api_name(rd) not in MODEL_MAY_BIND:
                 bump(f"{kind}_unmodelled:{api_name(rd)}")
             ns_before = ns_now
+            # per-axis count: which vocabulary namespaces this API bound (compared with the model's `ns` in `obs`)
+            for n in sorted(ns_obs(top) - ns_ids[0]):
+                bump(f"ns_bound:{api_name(rd)}:{NS.get(int(n), n) if n.isdigit() else n}")
+        ns_ids[0] = ns_obs(top)
         while _SIDE_VIOL:
             viol.append(_SIDE_VIOL.pop())
         now = snapshot(case, top)
@@ -1330,6 +1546,11 @@ def _run_impl(case, refs=None):
     for k, rd in enumerate(reads):
         name = api_name(rd)
         a1 = _call(case, top, target, rd)
+        if out_comparable(case, rd):        # the model computes this answer: compare the skeleton output
+            obs.append("out " + (_OUT[0] if _OUT[0] is not None else "none"))
+            bump("outcmp:" + name)
+        else:
+            obs.append("out -")
         now = check_state(k, rd, "first call")
         if isinstance(a1, list) and a1[:1] == ["EXC"]:
             bump("exc_" + a1[1])
@@ -1349,7 +1570,7 @@ def _run_impl(case, refs=None):
                 viol.append(f"nondeterministic:{name}: read #{k} {rd!r} answered differently on call {rep_no} in a row: "
                             f"{_short(a1)} vs {_short(a2)}")
                 break
-        obs.append(_obs_line(now))
+        obs.append(_obs_line(now, ns_ids[0]))
         bump("api_" + rd[0])
         if rd[0] == "ser":
             bump("fmt_" + rd[1])
@@ -1366,7 +1587,7 @@ def _run_impl(case, refs=None):
         elif not same:
             viol.append(f"nondeterministic:{api_name(reads[0])}: read {reads[0]!r} answered differently after the "
                         f"read-only sequence {reads[1:]!r}: {_short(first_ans)} vs {_short(again)}")
-        obs.append(_obs_line(now))
+        obs.append(_obs_line(now, ns_ids[0]))
     for k_s, enc in sorted((refs or {}).items(), key=lambda kv: int(kv[0])):
         k = int(k_s)
         a = first_answers[_json.dumps(reads[k])][1]
@@ -1430,29 +1651,55 @@ def _tok_rev():
 
 def _model_ser(rd, multi):
     fmt, opt = rd[1], SER_OPTS[rd[2]]
+    # `base=`: IRIs relative to it are written as <rel>, no getQName for them (Turtle family only)
+    base = NS_REV.get(opt["base"], "-") if "base" in opt else "-"
     if fmt in ("nt", "nt11"):
         return "read flat"
     if fmt in ("turtle", "n3"):
-        return "read turtle"
+        return f"read turtle {base}"
     if fmt == "longturtle":
-        return f"read longturtle {1 if opt.get('canon') else 0}"
+        return f"read longturtle {1 if opt.get('canon') else 0} {base}"
     if fmt == "xml":
         return "read xml"
     if fmt == "pretty-xml":
         return f"read prettyxml {opt.get('max_depth', 3)}"
     if not multi:
-        return "read turtle" if fmt == "trig" else "read pure"   # quad formats refuse / degrade on a plain Graph
+        return f"read turtle {base}" if fmt == "trig" else "read pure"   # quad formats refuse / degrade on a plain Graph
     if fmt == "json-ld":
         return "read jsonld"
     if fmt == "trig":
-        return "read trig"
+        return f"read trig {base}"
     if fmt == "patch":
         return "read patchtarget" if opt.get("_target") else "read patch"
     return "read ctxs"               # nquads, trix, hext
 
 
+def _pat(*ids):
+    return " ".join(_w(x) for x in ids)
+
+
+def out_comparable(case, rd):
+    """does the Lean model compute the ANSWER of this read exactly (then the skeleton output is compared)?"""
+    cfg = case["cfg"]
+    multi = cfg not in ("g", "view")
+    api = rd[0]
+    if api == "basic":
+        return rd[1] in ("len", "iter", "contains3", "triples")
+    if api == "nav":
+        return rd[1] == "cbd"
+    if api == "ser":
+        return rd[1] in ("nt", "nt11") or (multi and rd[1] == "nquads")
+    if api == "ctx" and multi:
+        return rd[1] in ("graphs", "contexts", "contains4", "quads", "triples4", "triples_ctx",
+                         "agg_len", "agg_contains", "agg_triples", "agg_quads")
+    if api == "q" and multi:
+        return q_shape(rd) is not None
+    return False
+
+
 def model_read(case, rd):
-    """the model-level read operation (state-touching skeleton) an API call maps to"""
+    """the model-level read operation (state-touching skeleton) an API call maps to; the first line is the one
+    whose output is compared when `out_comparable`"""
     cfg = case["cfg"]
     multi = cfg not in ("g", "view")
     api = rd[0]
@@ -1467,7 +1714,12 @@ def model_read(case, rd):
     if api == "cmp" and rd[1] == "skolemize":
         return "read skolemize"
     if api == "basic" and rd[1] == "qname":
-        return "read qname 15"
+        # target.qname(<http://e/zz> | <http://e/a>), then compute_qname(<http://other/ns#x>): both generate=True
+        return [f"read qname {36 if rd[5] else 1}", "read qname 37"]
+    if api == "basic" and rd[1] in ("len", "iter"):
+        return "read " + rd[1]
+    if api == "basic" and rd[1] in ("contains3", "triples"):
+        return f"read {rd[1]} {_pat(rd[2], rd[3], rd[4])}"
     if api == "nav" and rd[1] == "cbd":
         return f"read cbd {rd[2]}"
     if not multi:
@@ -1478,53 +1730,108 @@ def model_read(case, rd):
         rev = _tok_rev()
         consts = [rev[m] for m in re.findall(r"GRAPH (<[^>]*>)", rd[1])]
         kind = {"SELECT": "s", "ASK": "a", "CONSTRUCT": "c", "DESCRIBE": "d"}[rd[1].split()[0]]
+        shape = q_shape(rd)
         return (f"read query {gvar} {','.join(clauses) or '-'} {0 if rd[2] & 1 else 1} {kind} "
-                f"{','.join(consts) or '-'}")
+                f"{','.join(consts) or '-'} {0 if rd[2] & 2 else 1} {shape[1] if shape else 'x'}")
     if api == "ctx":
         f, g, how = rd[1], GTOK[rd[5]], rd[6]
+        pat = _pat(rd[2], rd[3], rd[4])
         if f in ("graphs", "contexts", "graphs_t", "get_graph"):
             return "read graphs"
         if f == "contains4":
-            return f"read contains4 {g} {0 if how == 'id' else 1}"
+            return f"read contains4 {g} {0 if how == 'id' else 1} {pat}"
         if f == "quads":
-            return f"read quads4 {g} {0 if how == 'id' else 1}"
+            return f"read quads4 {g} {0 if how == 'id' else 1} {pat}"
         if f == "triples4":
-            return f"read triples4 {g} {0 if how == 'id' else 1}"
+            return f"read triples4 {g} {0 if how == 'id' else 1} {pat}"
         if f in ("triples_ctx", "triples_choices_ctx"):
-            return f"read triplesctx {g}"
+            return f"read triplesctx {g} {pat}"
+        if f == "agg_len":
+            return f"read agglen d,{g},b3"
+        if f in ("agg_contains", "agg_triples", "agg_quads"):
+            return f"read agg{f[4:]} d,{g},b3 {pat}"
         return "read pure"
     if api == "cmp":
         return "read copy"           # compare functions / set operators work on copies
     return "read pure"
 
 
-def model_lines(case):
+def _model_read_lines(case, rd):
+    m = model_read(case, rd)
+    return [m] if isinstance(m, str) else list(m)
+
+
+def _model_plan(case):
+    """[(driver line, tag)]: tag "obs" = post-state line, "out" = a read whose rendered output is compared,
+    "skip" = a read whose answer the model does not claim (the implementation side observes "out -"), None = setup"""
     cfg = case["cfg"]
-    lines = ["reset " + cfg]
+    plan = [("reset " + cfg, None)]
+    for tid, n in TERM_NS.items():
+        plan.append((f"nsof {tid} {n}", None))
+    plan.append(("bind 2", None))                            # rdf: is one of rdflib's default bindings
+    if not case.get("nobind"):
+        plan.append(("bind 1", None))
+    for _pfx, ns in case.get("binds", []):
+        plan.append((f"bind {NS_REV[ns]}", None))
     for s, p, o, g in case["quads"]:
-        lines.append(f"quad {s} {p} {o} {GTOK[g]}")
+        plan.append((f"quad {s} {p} {o} {GTOK[g]}", None))
     for g in case.get("empty", []):
         if cfg != "g":
-            lines.append(f"reg {GTOK[g]}")
+            plan.append((f"reg {GTOK[g]}", None))
+    if cfg == "view":
+        plan.append((f"view {GTOK[case.get('view', 0)]}", None))
     for rd in case["reads"]:
-        lines.append(model_read(case, rd))
-        if case["twice"]:
-            lines += [model_read(case, rd)] * (case.get("reps", 2) - 1)
-        lines.append("obs")
+        ls = _model_read_lines(case, rd)
+        reps = case.get("reps", 2) if case["twice"] else 1
+        first = True
+        for _ in range(reps):
+            for j, ln in enumerate(ls):
+                plan.append((ln, ("out" if out_comparable(case, rd) else "skip") if first and j == 0 else None))
+                first = False
+        plan.append(("obs", "obs"))
     if not case["twice"] and case["reads"]:
-        lines.append(model_read(case, case["reads"][0]))
-        lines.append("obs")
-    return lines
+        for ln in _model_read_lines(case, case["reads"][0]):
+            plan.append((ln, None))
+        plan.append(("obs", "obs"))
+    return plan
+
+
+def model_lines(case):
+    return [ln for ln, _tag in _model_plan(case)]
 
 
 def _canon_model_line(line):
-    qs, _, names = line.partition("|")
-    return " ".join(sorted(qs.split())) + " | " + " ".join(sorted(names.split()))
+    parts = (line.split("|") + ["", ""])[:3]
+    return " | ".join(" ".join(sorted(p.split())) for p in parts)
+
+
+def _canon_model_out(line):
+    """the driver's rendering of `Out` -> the canonical form `_out` produces on the implementation side"""
+    kind, _, rest = line.partition(" ")
+    toks = rest.split()
+    if kind == "B":            # blocks g:t;t … -> the set of quads
+        qs = set()
+        for b in toks:
+            g, _, ts = b.partition(":")
+            for t in ts.split(";"):
+                if t:
+                    qs.add(t + "," + g)
+        return ("QS " + " ".join(sorted(qs))).strip()
+    if kind == "E":
+        return "E"
+    return (kind + " " + " ".join(sorted(toks))).strip()
 
 
 def select_model_obs(case, out):
-    lines = model_lines(case)
-    return [_canon_model_line(o) for l, o in zip(lines, out) if l == "obs"]
+    res = []
+    for (_ln, tag), o in zip(_model_plan(case), out):
+        if tag == "obs":
+            res.append(_canon_model_line(o))
+        elif tag == "out":
+            res.append("out " + _canon_model_out(o))
+        elif tag == "skip":
+            res.append("out -")
+    return res
 
 
 # ------------------------------------------------------------------ shrinking / findings
